@@ -140,14 +140,16 @@ func loadKnown(prop string) []*known {
 	return out
 }
 
-var frameRe = regexp.MustCompile(`(?m)^(github\.com/ipld/go-car[^\s(]*)`)
+var frameRe = regexp.MustCompile(`(?m)^github\.com/ipld/go-car.*$`)
 
-// PanicKey derives a finding key from a panic stack: the innermost go-car frame.
+// PanicKey derives a finding key from a panic stack: the innermost go-car frame
+// (function name only: no arguments, no line numbers).
 func PanicKey(stack []byte) string {
-	m := frameRe.FindAllSubmatch(stack, -1)
-	for _, x := range m {
-		fn := string(x[1])
-		// strip generic/closure noise but keep the function path
+	for _, line := range frameRe.FindAll(stack, -1) {
+		fn := string(line)
+		if i := strings.LastIndex(fn, "("); i > 0 {
+			fn = fn[:i]
+		}
 		return "panic/" + strings.TrimPrefix(fn, "github.com/ipld/go-car")
 	}
 	return "panic/outside-go-car"
